@@ -514,13 +514,23 @@ pub enum ResultWithDeserializedMetadata {
     SchemaChange(SchemaChange),
 }
 
+/// Maximum nesting depth of a column type accepted from the wire
+/// (real schemas nest a handful of levels).
+const MAX_TYPE_NESTING_DEPTH: usize = 128;
+
 fn deser_type_generic<'frame, 'result, StrT: Into<Cow<'result, str>>>(
     buf: &mut &'frame [u8],
     read_string: fn(&mut &'frame [u8]) -> StdResult<StrT, LowLevelDeserializationError>,
     read_custom_type: fn(&'frame str) -> StdResult<ColumnType<'result>, CustomTypeParseError>,
+    depth: usize,
 ) -> StdResult<ColumnType<'result>, CqlTypeParseError> {
     use ColumnType::*;
     use NativeType::*;
+    // The parser recurses once per nesting level and a level costs as little as 2 bytes
+    // on the wire, so the depth has to be bounded to keep the stack bounded.
+    if depth > MAX_TYPE_NESTING_DEPTH {
+        return Err(CqlTypeParseError::TypeNestingTooDeep(MAX_TYPE_NESTING_DEPTH));
+    }
     let id =
         types::read_short(buf).map_err(|err| CqlTypeParseError::TypeIdParseError(err.into()))?;
     Ok(match id {
@@ -555,13 +565,14 @@ fn deser_type_generic<'frame, 'result, StrT: Into<Cow<'result, str>>>(
                 buf,
                 read_string,
                 read_custom_type,
+                depth + 1,
             )?)),
         },
         0x0021 => Collection {
             frozen: false,
             typ: CollectionType::Map(
-                Box::new(deser_type_generic(buf, read_string, read_custom_type)?),
-                Box::new(deser_type_generic(buf, read_string, read_custom_type)?),
+                Box::new(deser_type_generic(buf, read_string, read_custom_type, depth + 1)?),
+                Box::new(deser_type_generic(buf, read_string, read_custom_type, depth + 1)?),
             ),
         },
         0x0022 => Collection {
@@ -570,6 +581,7 @@ fn deser_type_generic<'frame, 'result, StrT: Into<Cow<'result, str>>>(
                 buf,
                 read_string,
                 read_custom_type,
+                depth + 1,
             )?)),
         },
         0x0030 => {
@@ -588,7 +600,7 @@ fn deser_type_generic<'frame, 'result, StrT: Into<Cow<'result, str>>>(
             for _ in 0..fields_size {
                 let field_name =
                     read_string(buf).map_err(CqlTypeParseError::UdtFieldNameParseError)?;
-                let field_type = deser_type_generic(buf, read_string, read_custom_type)?;
+                let field_type = deser_type_generic(buf, read_string, read_custom_type, depth + 1)?;
 
                 field_types.push((field_name.into(), field_type));
             }
@@ -610,7 +622,7 @@ fn deser_type_generic<'frame, 'result, StrT: Into<Cow<'result, str>>>(
             // do not reserve more than the buffer can hold.
             let mut types = Vec::with_capacity(len.min(buf.len() / 2));
             for _ in 0..len {
-                types.push(deser_type_generic(buf, read_string, read_custom_type)?);
+                types.push(deser_type_generic(buf, read_string, read_custom_type, depth + 1)?);
             }
             Tuple(types)
         }
@@ -623,7 +635,7 @@ fn deser_type_generic<'frame, 'result, StrT: Into<Cow<'result, str>>>(
 fn deser_type_borrowed<'frame>(
     buf: &mut &'frame [u8],
 ) -> StdResult<ColumnType<'frame>, CqlTypeParseError> {
-    deser_type_generic(buf, |buf| types::read_string(buf), CustomTypeParser::parse)
+    deser_type_generic(buf, |buf| types::read_string(buf), CustomTypeParser::parse, 0)
 }
 
 fn deser_type_owned(buf: &mut &[u8]) -> StdResult<ColumnType<'static>, CqlTypeParseError> {
@@ -631,6 +643,7 @@ fn deser_type_owned(buf: &mut &[u8]) -> StdResult<ColumnType<'static>, CqlTypePa
         buf,
         |buf| types::read_string(buf).map(ToOwned::to_owned),
         |type_str| CustomTypeParser::parse(type_str).map(|t| t.into_owned()),
+        0,
     )
 }
 
